@@ -40,6 +40,13 @@ AltQueries == {[q |-> q, srvonly |-> TRUE, doc |-> ExplicitNo(QueryDoc(q))] :
                  q \in {x \in Queries : x.allprop /\ x.props = << >> /\ x.limit # 7 /\ ExplicitNo(QueryDoc(x)) # QueryDoc(x)}}
               \cup {[q |-> q, srvonly |-> TRUE, doc |-> WithCollation(QueryDoc(q), c)] : c \in {"i;ascii-casemap", "i;unicode-casemap"},
                       q \in {x \in Queries : x.allprop /\ x.props = << >> /\ x.limit = 7 /\ x.test = "" /\ WithCollation(QueryDoc(x), "c") # QueryDoc(x)}}
+\* an explicit limit of ZERO results: the API has no value for it (0 means "no limit" there), so the request it denotes cannot
+\* be handed to the backend; what must not happen is that it arrives as an unlimited query
+RECURSIVE ZeroLimit(_)
+ZeroLimit(n) == IF IsText(n) THEN n ELSE IF n.name = "nresults" THEN [n EXCEPT !.kids = <<Txt("0")>>]
+                ELSE [n EXCEPT !.kids = [i \in 1..Len(n.kids) |-> ZeroLimit(n.kids[i])]]
+ZeroLimitQs == {[q |-> q, srvonly |-> TRUE, zerolimit |-> TRUE, doc |-> ZeroLimit(QueryDoc(q))] :
+                  q \in {x \in Queries : x.limit = 7 /\ x.allprop /\ x.props = << >> /\ x.test = "" /\ Len(x.filters) <= 1 /\ ~InvalidEnums(Norm(x))}}
 Hrefs == {"h1", "h2", "h3"}
 Multigets == [allprop : {TRUE}, props : {<< >>}, hrefs : UNION {[1..n -> Hrefs] : n \in 1..3}]
              \cup [allprop : {FALSE}, props : {<< >>, <<"n1">>, <<"n2", "n1">>}, hrefs : {<<"h2">>, <<"h3", "h1">>}]
@@ -88,10 +95,11 @@ HasBogus(q) == \/ q.test = "bogus"
 ASSUME \A q \in Queries : InvalidEnums(Norm(q)) = HasBogus(q)
 
 Out == IOEnv.OUT
-ASSUME ndJsonSerialize(Out \o "/queries.ndjson", SetToSeq(AltQueries) \o SetToSeq({[q |-> q, doc |-> QueryDoc(q), srvonly |-> FALSE] : q \in Queries \cup {BigTextQ} \cup LimitQs}))
+ASSUME ndJsonSerialize(Out \o "/queries.ndjson", SetToSeq({[a EXCEPT !.q = a.q] @@ [zerolimit |-> FALSE] : a \in AltQueries}) \o SetToSeq(ZeroLimitQs) \o SetToSeq({[q |-> q, doc |-> QueryDoc(q), srvonly |-> FALSE, zerolimit |-> FALSE] : q \in Queries \cup {BigTextQ} \cup LimitQs}))
 ASSUME ndJsonSerialize(Out \o "/multigets.ndjson", SetToSeq({[m |-> m, doc |-> MultigetDoc(m)] : m \in Multigets}))
 ASSUME ndJsonSerialize(Out \o "/invalid.ndjson", SetToSeq(InvalidDocs))
-ASSUME PrintT(<<"COUNTS", Cardinality(Queries) + Cardinality(AltQueries), Cardinality(Multigets), Cardinality(InvalidDocs)>>)
+ASSUME ZeroLimitQs # {}
+ASSUME PrintT(<<"COUNTS", Cardinality(Queries) + Cardinality(AltQueries) + Cardinality(ZeroLimitQs) + Cardinality(LimitQs) + 1, Cardinality(Multigets), Cardinality(InvalidDocs)>>)
 VARIABLE x
 Init == x = 0
 Next == UNCHANGED x
